@@ -349,7 +349,43 @@ def field_assigns(fn, name, of_substr=None, live_only=True):
             lf = t["dest"]["p"][-1]
             if isinstance(lf, dict) and lf.get("name") == name and (of_substr is None or of_substr in (lf.get("of") or "")):
                 out.append((bi, "term", t))
+        # `mem::replace(&mut x.field, v)` / `mem::take(&mut x.field)` also assign the field: reported as a synthetic
+        # assignment statement (index "replace") whose right-hand side is the new value
+        if t["k"] == "call" and (callee(t).endswith("mem::replace") or callee(t).endswith("mem::take")) and t.get("args"):
+            pl = _mut_borrowed_place(fn, t["args"][0])
+            if pl is not None and pl["p"]:
+                lf = last_field(pl)
+                if lf is not None and pl["p"][-1] is lf and lf.get("name") == name and (of_substr is None or of_substr in (lf.get("of") or "")):
+                    if callee(t).endswith("mem::replace"):
+                        rv = {"use": t["args"][1]}
+                    else:
+                        rv = {"use": {"const": {"ty": "?", "text": "Default::default()", "def": "Default::default"}}}
+                    out.append((bi, "replace", {"k": "assign", "line": t.get("line", 0), "exp": False, "lhs": pl, "rv": rv, "via": callee(t)}))
     return out
+
+
+def _mut_borrowed_place(fn, operand):
+    """`move _t` with `_t = &mut PLACE` (through reborrows) -> PLACE, else None."""
+    p = operand.get("move") or operand.get("copy")
+    seen = 0
+    while p is not None and not p["p"] and seen < 6:
+        seen += 1
+        ds = [d for d in fn.defs.get(p["l"], []) if d[2] == "assign"]
+        if len(ds) != 1:
+            return None
+        rv = ds[0][3]
+        if "ref" in rv and rv.get("mut"):
+            pl = rv["ref"]
+            # reborrow `&mut *_x` -> keep following
+            if pl["p"] == ["deref"]:
+                p = {"l": pl["l"], "p": []}
+                continue
+            return pl
+        if "use" in rv:
+            p = rv["use"].get("move") or rv["use"].get("copy")
+            continue
+        return None
+    return None
 
 
 def field_borrows(fn, name, of_substr=None, mut_only=True):
